@@ -24,10 +24,10 @@ try:
         ok,bad=counts(t.stdout)
         with_tests_pass = (ok>=134 and not bad and t.returncode==0)
         sh("cp %s/demo.rs tests/seeded_demo.rs" % d)
-        t2=sh("cargo test --offline --test seeded_demo 2>&1")
+        t2=sh("cargo test --offline --features verif-hooks --test seeded_demo 2>&1")
         demo_fails_with = t2.returncode!=0 and "test result: FAILED" in t2.stdout
         sh("git checkout -- src Cargo.toml")
-        t3=sh("cargo test --offline --test seeded_demo 2>&1")
+        t3=sh("cargo test --offline --features verif-hooks --test seeded_demo 2>&1")
         demo_passes_without = t3.returncode==0
         meta.update(confirmed=dict(existing_tests_pass_with_change=with_tests_pass, tests_passed=ok, demo_fails_with_change=demo_fails_with, demo_passes_without_change=demo_passes_without,
                     how="tools/confirm_seeded.py in a scratch worktree /tmp/cf-seeded (removed afterwards)"))
